@@ -145,6 +145,8 @@ def expected_links(labels, values, ids=()):
                     j += 1
             else:
                 k = 0
+                if j < n and labels[j][:3] == '033':
+                    return None      # a class-33 element directly under a 223/224/225/232 operator: outside this oracle
                 while j < n and k < len(owners):
                     if labels[j] in ('008023', '008024'):
                         j += 1
